@@ -201,6 +201,49 @@ theorem flagC_step (fuel : Nat) (ihA : FlagA S nd rule fuel) (ihC : FlagC S nd r
                 | (cases h; done)
                 | exact ihC _ _ _ _ _ _ _ _ _ _ _ _ hvm hru hJ h hfl
 
+omit hS hM hX hR hnd hrule in
+theorem flagField_repeated (fuel : Nat) {f : Field} (wt : Nat) (val : List Byte) (hc : f.card = .repeated) :
+    flagField S nd rule (fuel + 1) f wt val =
+      if f.kind.isMessage then
+        match decSubBytes f wt val with
+        | none => none
+        | some (.error _) => some true
+        | some (.ok p) => some (flagLoop S nd rule fuel f.sub true [] p)
+      else if f.kind.isNumeric && wt = 2 then some true
+      else
+        match decScalar f wt val with
+        | none => none
+        | some _ => some true := by
+  rw [flagField]; simp only [hc]; rfl
+
+omit hS hM hX hR hnd hrule in
+theorem flagField_map (fuel : Nat) {f : Field} (wt : Nat) (val : List Byte) (hc : f.card = .map) :
+    flagField S nd rule (fuel + 1) f wt val =
+      if wt ≠ 2 then none
+      else match decBytes val with
+        | .error _ => some true
+        | .ok (p, _) =>
+          match (S.msg f.sub).find 1, (S.msg f.sub).find 2 with
+          | some kf, some vf => some (flagEntry S nd rule fuel kf vf p false false true)
+          | _, _ => some true := by
+  rw [flagField]; simp only [hc]; rfl
+
+omit hS hM hX hR hnd hrule in
+theorem flagField_singular (fuel : Nat) {f : Field} (wt : Nat) (val : List Byte) (h1 : f.card ≠ .repeated)
+    (h2 : f.card ≠ .map) :
+    flagField S nd rule (fuel + 1) f wt val =
+      if f.kind.isMessage then
+        match decSubBytes f wt val with
+        | none => none
+        | some (.error _) => some true
+        | some (.ok p) => some (flagLoop S nd rule fuel f.sub true [] p)
+      else
+        match decScalar f wt val with
+        | none => none
+        | some _ => some true := by
+  rw [flagField]
+  cases hcard : f.card <;> first | (exact absurd hcard h1) | (exact absurd hcard h2) | rfl
+
 include hS hM hX hR hnd hrule in
 theorem flagB_step (fuel : Nat) (ihA : FlagA S nd rule fuel) (ihC : FlagC S nd rule fuel) :
     FlagB S nd rule (fuel + 1) := by
@@ -209,25 +252,340 @@ theorem flagB_step (fuel : Nat) (ihA : FlagA S nd rule fuel) (ihC : FlagC S nd r
   have hfmem := find_mem hf
   cases m with
   | mk fs u =>
-  have hquiet : ∀ sub, f.card ≠ .map → considered S nd f = false → f.kind.isMessage = true →
-      dwfMsg S f.sub sub = true → initMsg S f.sub sub = true := by
-    intro sub hc hcons hk hw
-    have hn : nd f.sub = false := by
-      unfold considered at hcons
-      simp only [hc, if_false, hk] at hcons
-      split at hcons
-      · cases hcons
-      · simpa using hcons
-    exact quiet_msg S xr sub f.sub (fun hr => hnd _ hn (reaches_of_reachesM hM hX hr)) (ty_of_dwfMsg S xr hM sub f.sub hw)
-  unfold decField flagField
-  simp only [Msg.fields, Msg.unknown]
-  split
-  · -- repeated
-    rename_i hc
-    trace_state
-    sorry
-  · sorry
-  · sorry
+  constructor
+  · -- errUnknown on both sides
+    intro h
+    unfold decField at h
+    simp only [Msg.fields, Msg.unknown] at h
+    split at h
+    · rename_i hc
+      rw [flagField_repeated S nd rule fuel wt val hc]
+      split at h
+      · rename_i hmsg
+        split at h
+        · rename_i hsb; simp [hmsg, hsb]
+        · cases h
+        · split at h
+          · cases h
+          · split at h <;> cases h
+      · rename_i hmsg
+        split at h
+        · split at h
+          · cases h
+          · split at h <;> cases h
+        · rename_i hpk
+          split at h
+          · rename_i hsc; simp [hmsg, hpk, hsc]
+          · cases h
+          · cases h
+    · rename_i hc
+      rw [flagField_map S nd rule fuel wt val hc]
+      split at h
+      · cases h
+      · split at h
+        · rename_i hwt; simp [hwt]
+        · split at h
+          · cases h
+          · split at h
+            · split at h <;> cases h
+            · cases h
+    · rename_i hc1 hc2
+      rw [flagField_singular S nd rule fuel wt val (fun e => hc1 e) (fun e => hc2 e)]
+      split at h
+      · rename_i hmsg
+        split at h
+        · rename_i hsb; simp [hmsg, hsb]
+        · cases h
+        · try dsimp only at h
+          split at h
+          · cases h
+          · split at h <;> cases h
+      · rename_i hmsg
+        split at h
+        · rename_i hsc; simp [hmsg, hsc]
+        · cases h
+        · cases h
+  · intro m' h
+    have hRd : ∀ n g, (S.msg mi).find n = some g → g.card = .required → g.oneof = none := hR mi
+    have hquiet : ∀ sub, f.card ≠ .map → considered S nd f = false → f.kind.isMessage = true →
+        dwfMsg S f.sub sub = true → initMsg S f.sub sub = true := by
+      intro sub hc hcons hk hw
+      have hn : nd f.sub = false := by
+        unfold considered at hcons
+        simp only [hc, if_false, hk] at hcons
+        split at hcons
+        · cases hcons
+        · simpa using hcons
+      exact quiet_msg S xr sub f.sub (fun hr => hnd _ hn (reaches_of_reachesM hM hX hr))
+        (ty_of_dwfMsg S xr hM sub f.sub hw)
+    have hempty : initFields S (S.msg f.sub) Msg.empty.fields = true := by
+      simp [Msg.empty, Msg.fields, initFields]
+    unfold decField at h
+    simp only [Msg.fields, Msg.unknown] at h
+    split at h
+    · -- repeated
+      rename_i hc
+      have hcr : f.card ≠ .required := by rw [hc]; decide
+      have hcm : f.card ≠ .map := by rw [hc]; decide
+      rw [flagField_repeated S nd rule fuel wt val hc]
+      split at h
+      · rename_i hmsg
+        split at h
+        · cases h
+        · cases h
+        · rename_i p hsb
+          split at h
+          · cases h
+          · split at h
+            · cases h
+            · rename_i sub hsub
+              simp only [Step.ok.injEq] at h; subst h
+              have hsw : dwfMsg S f.sub sub = true := (dec_inv S hS fuel).1 _ _ _ _ _ _ (dwfMsg_empty S f.sub) hsub
+              refine ⟨persist_appendList _ _ _ _, fun e => absurd e hcr,
+                flagLoop S nd rule fuel f.sub true [] p, by simp [hmsg, hsb], fun hi hcc => ?_⟩
+              have hsi : initMsg S f.sub sub = true := by
+                rcases hcc with hcc | hcc
+                · exact hquiet sub hcm hcc hmsg hsw
+                · exact ihA _ _ _ _ _ _ _ _ (dwfMsg_empty S f.sub) (fun _ => hempty) (by intro n hn; cases hn) hsub hcc
+              exact initFields_appendList hi hf (by simp [initVals, initVal, hsi])
+      · rename_i hmsg
+        split at h
+        · rename_i hpk
+          split at h
+          · cases h
+          · split at h
+            · cases h
+            · rename_i vs hvs
+              simp only [Step.ok.injEq] at h; subst h
+              refine ⟨persist_appendList _ _ _ _, fun e => absurd e hcr, true, by simp [hmsg, hpk], fun hi _ => ?_⟩
+              exact initFields_appendList hi hf (decPacked_init _ _ _ _ hvs)
+        · rename_i hpk
+          split at h
+          · cases h
+          · cases h
+          · rename_i v hv
+            simp only [Step.ok.injEq] at h; subst h
+            refine ⟨persist_appendList _ _ _ _, fun e => absurd e hcr, true, by simp [hmsg, hpk, hv], fun hi _ => ?_⟩
+            exact initFields_appendList hi hf (by simp [initVals, initVal_of_not_msg (decScalar_not_msg hv)])
+    · -- map
+      rename_i hc
+      have hcr : f.card ≠ .required := by rw [hc]; decide
+      rw [flagField_map S nd rule fuel wt val hc]
+      split at h
+      · cases h
+      · split at h
+        · cases h
+        · rename_i hwt
+          split at h
+          · cases h
+          · rename_i p n hp
+            try dsimp only at h
+            split at h
+            · rename_i kf vf hk hv
+              have hent : entryDeclOK kf vf = true := by
+                simp only [fieldDeclOK, hc, or_true, if_true, hk, hv, Bool.and_eq_true] at hdecl
+                exact hdecl.2
+              simp only [entryDeclOK, Bool.and_eq_true, Bool.or_eq_true, Bool.not_eq_true'] at hent
+              obtain ⟨⟨hkm, hkd⟩, hvd⟩ := hent
+              split at h
+              · cases h
+              · rename_i k v hkv
+                have hinit : EntInv S kf vf none (if vf.kind.isMessage = true then some (.msg Msg.empty) else none) := by
+                  refine ⟨(by intro kv hk'; cases hk'), ?_, ?_⟩
+                  · intro vv hvv
+                    split at hvv
+                    · rename_i hvm
+                      cases hvv
+                      simp [dwfVal, hvm, dwfMsg_empty]
+                    · cases hvv
+                  · intro hvm; simp [hvm]
+                obtain ⟨ek, ev, evs⟩ := (dec_inv S hS fuel).2.2 _ _ _ _ _ _ _ _ _ hkm hinit hkv
+                have hkey : isMsgVal (k.getD (defaultScalar kf)) = false := by
+                  cases k with
+                  | none => exact isMsgVal_defaultScalar kf
+                  | some kv => exact isMsgVal_of_wfScalar (ek kv rfl)
+                try dsimp only at h
+                -- the value of the entry is initialized whenever the flag is honoured and set
+                have hval : (considered S nd f = false ∨
+                    flagEntry S nd rule fuel kf vf p false false true = true) →
+                    initVal S vf (v.getD (defaultScalar vf)) = true := by
+                  intro hcc
+                  by_cases hvmsg : vf.kind.isMessage = true
+                  · have hcons : considered S nd f = true := by
+                      unfold considered; simp [hc, hv, hvmsg]
+                    rcases hcc with hcc | hcc
+                    · rw [hcons] at hcc; cases hcc
+                    · rcases hrule with hru | hno
+                      · have hJ : ValJ S vf (some (.msg Msg.empty)) false true :=
+                          ⟨⟨_, rfl⟩, fun x hx => by
+                            cases hx
+                            exact ⟨dwfMsg_empty S vf.sub, fun _ => by simp [Msg.empty, Msg.fields, initFields],
+                              fun hs => by cases hs⟩⟩
+                        simp only [hvmsg, if_true] at hkv
+                        obtain ⟨x, hx, hxi⟩ := ihC _ _ _ _ _ _ _ _ _ _ _ _ hvmsg hru hJ hkv hcc
+                        subst hx
+                        simpa [initVal] using hxi
+                      · have := hno mi f hfmem hc vf hv
+                        rw [hvmsg] at this; cases this
+                  · have hvm' : vf.kind.isMessage = false := by simpa using hvmsg
+                    apply initVal_of_not_msg
+                    cases v with
+                    | none => exact isMsgVal_defaultScalar vf
+                    | some vv =>
+                      have := ev vv rfl
+                      cases vv with
+                      | msg x => simp [dwfVal, hvm'] at this
+                      | num _ => rfl
+                      | bytes _ => rfl
+                have hentry : (considered S nd f = false ∨
+                    flagEntry S nd rule fuel kf vf p false false true = true) →
+                    initMsg S f.sub (.mk (.cons 1 (.one (k.getD (defaultScalar kf)))
+                      (.cons 2 (.one (v.getD (defaultScalar vf))) .nil)) []) = true := by
+                  intro hcc
+                  rw [initMsg, Bool.and_eq_true]
+                  refine ⟨required_all_of_not_hasRequired (hM mi f hfmem hc).1 _, ?_⟩
+                  simp only [initFields, hk, hv, initFVal, hval hcc, initVal_of_not_msg hkey, Bool.and_self]
+                have hflag : (if wt ≠ 2 then none
+                    else match decBytes val with
+                      | .error _ => some true
+                      | .ok (p, _) =>
+                        match (S.msg f.sub).find 1, (S.msg f.sub).find 2 with
+                        | some kf, some vf => some (flagEntry S nd rule fuel kf vf p false false true)
+                        | _, _ => some true) = some (flagEntry S nd rule fuel kf vf p false false true) := by
+                  simp [hwt, hp, hk, hv]
+                split at h
+                · rename_i vs hvs
+                  simp only [Step.ok.injEq] at h; subst h
+                  refine ⟨persist_set _ _ _ _, fun e => absurd e hcr, _, hflag, fun hi hcc => ?_⟩
+                  refine initFields_set hi _ _ (fun g hg => ?_)
+                  rw [hf] at hg; cases hg
+                  rw [initFVal]
+                  have hold := initFields_get hi hvs hf
+                  rw [initFVal] at hold
+                  exact initVals_mapPut hold _ _ (hentry hcc)
+                · simp only [Step.ok.injEq] at h; subst h
+                  refine ⟨persist_set _ _ _ _, fun e => absurd e hcr, _, hflag, fun hi hcc => ?_⟩
+                  refine initFields_set hi _ _ (fun g hg => ?_)
+                  rw [hf] at hg; cases hg
+                  rw [initFVal]
+                  exact initVals_mapPut (by rw [initVals]) _ _ (hentry hcc)
+            · cases h
+    · -- singular
+      rename_i hc1 hc2
+      have hc1' : f.card ≠ .repeated := fun e => hc1 e
+      have hc2' : f.card ≠ .map := fun e => hc2 e
+      rw [flagField_singular S nd rule fuel wt val hc1' hc2']
+      split at h
+      · rename_i hmsg
+        split at h
+        · cases h
+        · cases h
+        · rename_i p hsb
+          try dsimp only at h
+          split at h
+          · cases h
+          · split at h
+            · cases h
+            · rename_i sub hsub
+              simp only [Step.ok.injEq] at h; subst h
+              have hcurw : dwfMsg S f.sub (match (match f.oneof with
+                  | some o => Fields.clearOneof (S.msg mi) o f.num fs
+                  | none => fs).get? f.num with
+                | some (.one (.msg x)) => x
+                | _ => Msg.empty) = true := by
+                split
+                · rename_i x hx; exact dwf_cur hm hf hx
+                · exact dwfMsg_empty S f.sub
+              have hsw : dwfMsg S f.sub sub = true := (dec_inv S hS fuel).1 _ _ _ _ _ _ hcurw hsub
+              refine ⟨(persist_clearFor hRd f fs).trans (persist_set _ _ _ _),
+                fun _ => by simp only [Msg.fields]; rw [Fields.get?_set]; simp, flagLoop S nd rule fuel f.sub true [] p, by simp [hmsg, hsb],
+                fun hi hcc => ?_⟩
+              have h0 : initFields S (S.msg mi) (match f.oneof with
+                  | some o => Fields.clearOneof (S.msg mi) o f.num fs
+                  | none => fs) = true := by
+                cases f.oneof with
+                | none => exact hi
+                | some o => exact initFields_clearOneof hi _ _
+              have hcuri : initFields S (S.msg f.sub) (match (match f.oneof with
+                  | some o => Fields.clearOneof (S.msg mi) o f.num fs
+                  | none => fs).get? f.num with
+                | some (.one (.msg x)) => x
+                | _ => Msg.empty).fields = true := by
+                split
+                · rename_i x hx
+                  have := initFields_get h0 hx hf
+                  rw [initFVal, initVal] at this
+                  cases x with
+                  | mk xs xu =>
+                    rw [initMsg, Bool.and_eq_true] at this
+                    exact this.2
+                · exact hempty
+              have hsi : initMsg S f.sub sub = true := by
+                rcases hcc with hcc | hcc
+                · exact hquiet sub hc2' hcc hmsg hsw
+                · exact ihA _ _ _ _ _ _ _ _ hcurw (fun _ => hcuri) (by intro n hn; cases hn) hsub hcc
+              refine initFields_set h0 _ _ (fun g hg => ?_)
+              rw [hf] at hg; cases hg
+              rw [initFVal, initVal]; exact hsi
+      · rename_i hmsg
+        split at h
+        · cases h
+        · cases h
+        · rename_i v hv
+          simp only [Step.ok.injEq] at h; subst h
+          refine ⟨persist_setSingular hRd hf fs v, fun hcr => ?_, true, by simp [hmsg, hv], fun hi _ => ?_⟩
+          · simp only [Msg.fields]; rw [get?_setSingular]; simp [hcr]
+          · exact initFields_setSingular hi (decScalar_not_msg hv)
+
+include hS hM hX hR hnd hrule in
+theorem flag_inv : ∀ fuel : Nat, FlagA S nd rule fuel ∧ FlagB S nd rule fuel ∧ FlagC S nd rule fuel
+  | 0 => by
+    refine ⟨?_, ?_, ?_⟩
+    · intro mi m init seen b depth dis m' _ _ _ h; simp [decMsg] at h
+    · intro mi m f wt val depth dis _ _
+      refine ⟨fun h => ?_, fun m' h => ?_⟩ <;> simp [decField] at h
+    · intro kf vf k v b depth dis k' v' anyI seenV allI _ _ _ h; simp [decEntry] at h
+  | fuel + 1 => by
+    obtain ⟨ihA, ihB, ihC⟩ := flag_inv fuel
+    exact ⟨flagA_step S nd rule hS fuel ihA ihB,
+      flagB_step S xr nd rule hS hM hX hR hnd hrule fuel ihA ihC,
+      flagC_step S nd rule hS fuel ihA ihC⟩
+
+include hS hM hX hR hnd hrule in
+/-- the flag of `decFlag` is sound -/
+theorem decFlag_sound (mi : Nat) (b : List Byte) (m : Msg)
+    (h : decFlag S nd rule mi b = .ok (m, true)) : initMsg S mi m = true := by
+  unfold decFlag at h
+  cases hu : unmarshal S mi b with
+  | error e => rw [hu] at h; cases h
+  | ok m0 =>
+    rw [hu] at h
+    simp only [Except.map, Except.ok.injEq, Prod.mk.injEq] at h
+    obtain ⟨rfl, hfl⟩ := h
+    unfold unmarshal unmarshalInto at hu
+    split at hu
+    · cases hu
+    · exact (flag_inv S xr nd rule hS hM hX hR hnd hrule (fuelFor b)).1 mi Msg.empty true [] b _ false m0
+        (dwfMsg_empty S mi) (fun _ => by simp [Msg.empty, Msg.fields, initFields])
+        (by intro n hn; cases hn) hu hfl
+
+include hS hM hX hR hnd hrule in
+/-- merging into an existing message: the flag is sound when everything nested in the target was initialized -/
+theorem decFlagInto_sound (mi : Nat) (m0 : Msg) (b : List Byte) (m : Msg) (hw : dwfMsg S mi m0 = true)
+    (h0 : initFields S (S.msg mi) m0.fields = true)
+    (h : decFlagInto S nd rule mi m0 b = .ok (m, true)) : initMsg S mi m = true := by
+  unfold decFlagInto at h
+  cases hu : unmarshalInto S mi m0 b 10000 false with
+  | error e => rw [hu] at h; cases h
+  | ok m1 =>
+    rw [hu] at h
+    simp only [Except.map, Except.ok.injEq, Prod.mk.injEq] at h
+    obtain ⟨rfl, hfl⟩ := h
+    unfold unmarshalInto at hu
+    split at hu
+    · cases hu
+    · exact (flag_inv S xr nd rule hS hM hX hR hnd hrule (fuelFor b)).1 mi m0 true [] b _ false m1
+        hw (fun _ => h0) (by intro n hn; cases hn) hu hfl
 
 end
 
